@@ -18,7 +18,8 @@ RULE = ("Circuits from the program generators (lossless / loss elements anywhere
         "blocks, phases, zero loss). Oracle: marginal over loss modes "
         "of the exact Fock distribution computed with own permanent from the real U_full and heralds. "
         "Non-trivial = (lossy and >= 2 injected photons) or a herald carrying photons; distinct = "
-        "distinct case JSON.")
+        "distinct case JSON."
+        " Also: two or three circuits with equal totals of circuit + loss modes and equal photon numbers computed one after the other by the same Backend / Sampler object.")
 ASSUMPTIONS = [
     "per-pattern tolerance = (number of photon patterns on the circuit modes) x 1e-9 (documented truncation, applied per pattern) + 1e-9",
     "ideal Source(); detector not involved in probability_distribution",
